@@ -63,6 +63,15 @@ impl Choices {
         chosen as usize
     }
 
+    /// move the recorded prefix out (the callee owns the choice stream for one execution)
+    pub fn take(&mut self) -> Choices {
+        std::mem::replace(self, Choices::replay(vec![]))
+    }
+
+    pub fn chosen(&self) -> Vec<u16> {
+        self.trace.iter().map(|c| c.chosen).collect()
+    }
+
     pub fn deviations(&self) -> usize {
         self.trace.iter().filter(|c| c.chosen != 0).count()
     }
